@@ -917,6 +917,9 @@ func (e *Exec) execInvoke(fr *Frame, st *State, in ssa.CallInstruction, c *ssa.C
 		e.note("unknown-stdlib: method %s.%s (result unconstrained, no heap effect assumed)", c.Value.Type(), c.Method.Name())
 		r := e.freshVal("res_"+sanitize(c.Method.Name()), rt, kindOf(rt))
 		e.typeFacts(r, rt, st)
+		if c.Method.Name() == "Done" && types.TypeString(types.Unalias(c.Value.Type()), nil) == "context.Context" {
+			r.Origin, r.OriginBase = ctxDoneOrigin, recv.t()
+		}
 		return r
 	}
 	if c.Method.Name() == "Error" {
